@@ -215,14 +215,17 @@ def rawarray_groups():
     for esz in (4, 1):
         d = ['-DVF_ESZ=%d' % esz]
 
-        def g(name, harness, enforce, what, **kw):
-            G.append(Group('rawarray.%s.e%d' % (name, esz), ['C11'], 'P', S, harness, enforce=enforce, sources=src, defines=d,
+        def g(name, harness, enforce, what, defines_extra=(), **kw):
+            G.append(Group('rawarray.%s.e%d' % (name, esz), ['C11'], 'P', S, harness, enforce=enforce, sources=src, defines=d + list(defines_extra),
                            what=what + ' [element size %d]' % esz, **kw))
         g('find', 'h_find', 'cstl_raw_array_find', 'linear find returns the first index comparing equal, -1 iff none; every count')
         if esz == 1:
             # (the 4-byte instance of this loop invariant does not finish in 600 s; the index arithmetic is the same)
             g('reverse', 'h_reverse', 'cstl_raw_array_reverse', 'reverse exactly mirrors the order for every count; writes only the array and the scratch element')
         g('search_arith', 'h_search_arith', 'cstl_raw_array_search', 'binary search: for arbitrary comparison outcomes all probes stay inside the array, indices never overflow, result in [-1,count)')
+        g('search_func', 'h_search_func', 'cstl_raw_array_search',
+          'binary search on a sorted array, every count: sortedness seen from the probe as zone boundaries lo <= hi (greater / equal / smaller); returns an index inside [lo,hi) iff lo < hi, else -1',
+          defines_extra=['-DVF_G_search_func'])
     return G
 
 
